@@ -43,6 +43,27 @@ def _seq(items, dotall):
     return z3.Concat(*parts)
 
 
+def _word():
+    return z3.Union(z3.Range("a", "z"), z3.Range("A", "Z"), z3.Range("0", "9"), z3.Re("_"))
+
+
+def _space():
+    return z3.Union(*[z3.Re(c) for c in " \t\n\r\x0b\x0c"])
+
+
+def _not(r):
+    return z3.Intersect(any_char(), z3.Complement(r))
+
+
+# \w \d \s and their complements, exact on ASCII subjects (the header families and the literal
+# families the lemmas quantify over are ASCII; on a non-ASCII subject `re` accepts more for \w \d \s)
+_CATEGORIES = {
+    C.CATEGORY_WORD: _word, C.CATEGORY_NOT_WORD: lambda: _not(_word()),
+    C.CATEGORY_DIGIT: lambda: z3.Range("0", "9"), C.CATEGORY_NOT_DIGIT: lambda: _not(z3.Range("0", "9")),
+    C.CATEGORY_SPACE: _space, C.CATEGORY_NOT_SPACE: lambda: _not(_space()),
+}
+
+
 def _class(av):
     negate = False
     alts = []
@@ -53,6 +74,8 @@ def _class(av):
             alts.append(z3.Re(chr(v)))
         elif op == C.RANGE:
             alts.append(z3.Range(chr(v[0]), chr(v[1])))
+        elif op == C.CATEGORY and v in _CATEGORIES:
+            alts.append(_CATEGORIES[v]())
         else:
             raise UnsupportedRegex(f"class item {op}")
     u = alts[0] if len(alts) == 1 else z3.Union(*alts)
